@@ -161,6 +161,10 @@ def run(ctx):
                 else:
                     ctx.count('search:conic-dual-solver-failed')
             continue
+        if 'close' in str(getattr(sp_, 'status', '')).lower() or 'close' in str(getattr(sd, 'status', '')).lower():
+            # ECOS' reduced-accuracy termination ("Close to optimal", exit flag 10): rsome accepts it as a solution, but its value
+            # is not accurate enough to compare optima (seen: dual of a perspective-exp program, 1.67 reported for 2.0)
+            ctx.count('search:inaccurate-solver-status'); continue
         tol = (1e-6 if not conic else 1e-4) * (1 + abs(sp_.objval))
         if abs(sp_.objval + sd.objval) > tol:
             ctx.hit('dual-gap:' + ','.join(_classify(pj, dj) or ['lp']),
